@@ -12,12 +12,12 @@ P("C04",
              "interleaving: c04_exactly_once (scheduled = handled + live at all times; handled = scheduled when Run returns), "
              "c04_round_times_monotone, c04_no_overlap_across_times (the acceptor par_trace_ok accepts every model trace: an event starts "
              "only if no scheduled-and-unfinished event is earlier, and all executing handlers share its time and phase; the engine never "
-             "panics), c04_secondary_round_clean (a secondary round at t starts only when nothing is executing and every queued primary "
-             "is later than t, incl. primaries spawned by primaries at t). c04_sibling_secondary_corner_refuted: witness interleaving of the "
+             "panics), c04_secondary_round_clean (a secondary round at t is chosen, under the pause lock, only when nothing is executing and every queued primary "
+             "is later than t, incl. primaries spawned by primaries at t or injected by a paused controller), c04_phase_guaranteed (acceptor phase_guaranteed_ok accepts every execution incl. an external Pause/Schedule-at-now/Continue controller: a live same-instant primary at a secondary start was scheduled by a secondary of that instant), c04_reordered_pause_refuted (determineWhatToRun before pauseLock.Lock loses it). c04_sibling_secondary_corner_refuted: witness interleaving of the "
              "literal phase clause — confirmed on the real engine (known finding).",
   level_note="partial: the Go scheduler, WaitGroup, channel, mutex and memory-model semantics are assumed (modelled steps atomic and "
              "sequentially consistent); real interleavings are sampled, not enumerated. Queue = time-ordered FIFO list (heap is C01's subject). "
-             "The pause lock is omitted here (C05). External goroutines calling Schedule during Run are not modelled.",
+             "The external controller only schedules while it holds the pause (documented protocol); Schedule calls from other goroutines during a round are not modelled.",
   assumptions=["Go memory model: channel send/receive, sync.Mutex, sync.RWMutex and WaitGroup operations are atomic and sequentially consistent at the modelled granularity",
                "EventQueueImpl behaves as a (time, seq)-ordered FIFO list",
                "event times stay below 2^64 - 1 (the value earliestTimeInQueueGroup uses for 'empty')",
